@@ -165,6 +165,18 @@ func decodeLogEntry(r io.Reader) (LogEntry, error) {
 	return entry, nil
 }
 
+// countingReader counts the bytes consumed from the underlying reader.
+type countingReader struct {
+	reader io.Reader
+	count  int64
+}
+
+func (c *countingReader) Read(p []byte) (int, error) {
+	n, err := c.reader.Read(p)
+	c.count += int64(n)
+	return n, err
+}
+
 // persistentLog implements the Log interface. Not concurrent safe.
 type persistentLog struct {
 	// The in-memory log entries of the log.
@@ -207,17 +219,36 @@ func (l *persistentLog) Open() error {
 }
 
 func (l *persistentLog) Replay() error {
-	reader := bufio.NewReader(l.file)
+	reader := &countingReader{reader: bufio.NewReader(l.file)}
+
+	// The offset of the end of the last complete entry.
+	var valid int64
 
 	for {
 		entry, err := decodeLogEntry(reader)
-		if errors.Is(err, io.EOF) {
+		if err != nil && reader.count == valid && errors.Is(err, io.EOF) {
+			break
+		}
+		if errors.Is(err, io.EOF) || errors.Is(err, io.ErrUnexpectedEOF) {
+			// The last entry was only partially written before a crash. Discard it.
+			if err := l.file.Truncate(valid); err != nil {
+				return fmt.Errorf("could not truncate log file: %w", err)
+			}
+			if err := l.file.Sync(); err != nil {
+				return fmt.Errorf("could not sync log file: %w", err)
+			}
 			break
 		}
 		if err != nil {
 			return fmt.Errorf("could not decode log entry: %w", err)
 		}
+		valid = reader.count
 		l.entries = append(l.entries, &entry)
+	}
+
+	// Position the file at the end of the last complete entry for subsequent appends.
+	if _, err := l.file.Seek(valid, io.SeekStart); err != nil {
+		return fmt.Errorf("could not seek log file: %w", err)
 	}
 
 	// The log must always contain at least one entry.
